@@ -26,9 +26,10 @@ pub const K_SIGNAL: u32 = 18;
 pub const K_POLL: u32 = 19;
 pub const K_ESCAPE: u32 = 20; // the forked child returned from the library into the harness
 pub const K_MARK: u32 = 21; // harness marker (e.g. "the drop starts here")
-pub const KNAME: [&str; 22] = [
+pub const K_EXECARG: u32 = 22; // one argv element of the following execve attempt (a = index)
+pub const KNAME: [&str; 23] = [
     "?", "pipe", "fcntl", "dup2", "close", "fork", "chdir", "setuid", "setgid", "setpgid", "execve", "sigmask",
-    "_exit", "read", "write", "waitpid", "kill", "childstart", "signal", "poll", "escape", "mark",
+    "_exit", "read", "write", "waitpid", "kill", "childstart", "signal", "poll", "escape", "mark", "execarg",
 ];
 
 pub const SLEN: usize = 200;
@@ -63,6 +64,7 @@ pub static mut SH: *mut Shared = std::ptr::null_mut();
 /// -1000 - fd = read(fd), 0 = nothing
 pub static BLOCKED_IN: std::sync::atomic::AtomicI64 = std::sync::atomic::AtomicI64::new(0);
 pub static mut RECORDING: bool = false;
+pub static mut LOG_EXEC_ARGS: bool = false;
 pub static mut IN_CHILD: u32 = 0; // pid, set in the forked child's copy
 
 pub fn init() {
@@ -387,6 +389,15 @@ unsafe fn h_execve(
         rec(K_EXECVE, with_env as i64, 0, 0, -1, e, s);
         crate::raw::set_errno(e);
         return Some(-1);
+    }
+    // the argument vector handed to exec (first 12 elements), for the checks that need to see what
+    // a program that is not ours (sh) was given
+    if LOG_EXEC_ARGS {
+        let mut k = 0;
+        while k < 12 && !argv.is_null() && !(*argv.add(k)).is_null() {
+            rec(K_EXECARG, k as i64, 0, 0, 0, 0, cstr_bytes(*argv.add(k)));
+            k += 1;
+        }
     }
     // log the attempt first: a successful exec never returns
     let i = (*SH).count.load(Ordering::SeqCst);
